@@ -6,14 +6,18 @@
 import Z80.Proto
 import Z80.Gen.All
 import Z80.Spec.Koron
+import Z80.Spec.Interrupt
+import Z80.Spec.KoronIM0
 
 open Z80 Z80.Proto
 
-/-- reference step: only defined here for states without a pending request -/
+/-- reference step; mode-0 requests outside the defined part of the specification are skipped -/
 def specStep : M Unit := fun s =>
   match s.Interrupt with
-  | none => Z80.Spec.executeOne Z80.Spec.Impl.koron s
-  | some _ => .panic "skip"
+  | none => Z80.Spec.step Z80.Spec.Impl.koron s
+  | some i =>
+    if !Z80.Spec.isNMI i && s.IFF1 && s.IM == 0 && !i.Data.isEmpty && !Z80.Spec.im0Defined i.Data then .panic "skip"
+    else Z80.Spec.step Z80.Spec.Impl.koron s
 
 partial def loop (h : IO.FS.Stream) (out : IO.FS.Stream) (step : M Unit) : IO Unit := do
   let line ← h.getLine
@@ -33,4 +37,5 @@ def main (args : List String) : IO Unit := do
   let stdout ← IO.getStdout
   match args with
   | ["spec"] => loop stdin stdout specStep
+  | ["kf"] => loop stdin stdout (Z80.Spec.stepKF Z80.Spec.Impl.koron)
   | _ => loop stdin stdout Z80.Gen.Step
